@@ -49,27 +49,32 @@ const (
 	KLikeRegex  // A = expr, S = pattern, Flags
 )
 
-type Sub struct{ From, To *Expr }
+type Sub struct {
+	From *Expr `json:"from,omitempty"`
+	To   *Expr `json:"to,omitempty"`
+}
 
 type Expr struct {
-	K     Kind
-	S     string
-	I     int64
-	F     float64
-	A, B  *Expr
-	Subs  []Sub
-	First int
-	Last  int
-	Flags string
-	P, Sc *int64
-	T     *string
-	Steps []*Expr
+	K     Kind    `json:"k"`
+	S     string  `json:"s,omitempty"`
+	I     int64   `json:"i,omitempty"`
+	F     float64 `json:"f,omitempty"`
+	A     *Expr   `json:"a,omitempty"`
+	B     *Expr   `json:"b,omitempty"`
+	Subs  []Sub   `json:"subs,omitempty"`
+	First int     `json:"first,omitempty"`
+	Last  int     `json:"last,omitempty"`
+	Flags string  `json:"flags,omitempty"`
+	P     *int64  `json:"p,omitempty"`
+	Sc    *int64  `json:"sc,omitempty"`
+	T     *string `json:"t,omitempty"`
+	Steps []*Expr `json:"steps,omitempty"`
 }
 
 // Path is a complete abstract path.
 type Path struct {
-	Strict bool
-	E      *Expr
+	Strict bool  `json:"strict,omitempty"`
+	E      *Expr `json:"e"`
 }
 
 func (k Kind) isPredicate() bool { return k >= KCmp }
